@@ -560,6 +560,12 @@ func analyse(run *kit.Run, h int, evs []event, unknown *int64) (contended int64,
 	// (1) linearizability per key
 	for _, part := range model.Partition(ops) {
 		res, _ := porcupine.CheckOperationsVerbose(model, part, 60*time.Second)
+		if res == porcupine.Unknown {
+			// the wall clock is only a watchdog: on a loaded machine a partition that normally takes milliseconds may
+			// run out of it; it gets a second, much longer chance before the run is called inconclusive
+			run.Count("porcupine_partitions_retried", 1)
+			res, _ = porcupine.CheckOperationsVerbose(model, part, 15*time.Minute)
+		}
 		switch res {
 		case porcupine.Unknown:
 			*unknown++
